@@ -97,6 +97,13 @@ class TracedFile(io.RawIOBase):
         # yield point first: the position is read *after* it, so that an interleaved seek on
         # a shared handle has the effect it would have on a real file object
         self.store.yield_point(("read", self.path, self.handle, size))
+        chunk = self._read_now(size)
+        # second yield point: the data has been delivered but the caller has not looked at it
+        # yet (a pre-emption right after the read returns)
+        self.store.yield_point(("read-done", self.path, self.handle, size))
+        return chunk
+
+    def _read_now(self, size):
         pos = self.pos
         chunk = self.data[pos: pos + size]
         self.pos = pos + len(chunk)
@@ -104,8 +111,12 @@ class TracedFile(io.RawIOBase):
         return chunk
 
     def readinto(self, b):
-        chunk = self.read(len(b))
+        size = len(b)
+        self.store.yield_point(("read", self.path, self.handle, size))
+        chunk = self._read_now(size)
         b[: len(chunk)] = chunk
+        # the caller's buffer is filled; another thread may run before the caller uses it
+        self.store.yield_point(("read-done", self.path, self.handle, size))
         return len(chunk)
 
     def close(self):
